@@ -37,6 +37,13 @@ theorem c33_hashbits_window (h : Bytes) (c i : Nat) :
     ∧ (c + i ≤ 8 * h.length → C15.ofBits (((hashBitsBE h).drop c).take i) < 2 ^ i) :=
   ⟨next_eq_window h c i, window_lt h c i⟩
 
+/-- Tie to the regenerated definition: the hand transcription of `hashBits.next` used by this model
+computes the same digits as `C15.nextBits`, which is built on `Gen.C15.mkmask` (T-gen from
+ipld/unixfs/hamt/util.go): a semantic change of `mkmask` in the Go source breaks this theorem. -/
+theorem c33_hashbits_regenerated (h : Bytes) (c i : Nat) (hle : c + i ≤ h.length * 8) :
+    (nextAux (i + 1) h c i).1 = C15.nextBits (h.map (·.toBitVec)) (i + 1) c i :=
+  nextAux_eq_c15 h c i hle
+
 /-- HAMT read path, soundness (no hypothesis on the shard tree): a successful lookup returns a stored
 entry carrying exactly that key. -/
 theorem c33_hamt_sound {α : Type} (H : Bytes → Bytes) (k : Bytes) (c fanout bf : Nat) (s : Slots α) (v : α)
